@@ -113,7 +113,8 @@ impl<'a> Run<'a> {
                 let mut exp_drops = vec![];
                 match (&res, grant) {
                     (Polled::Ready(o), true) => { self.ready += 1; let e = self.oracle.apply(op); exp_drops = e.drops; let got = abs(op, o); if Some(got.clone()) != e.out { self.fail("oracle", vec!["C14", "C01"], &line, format!("resolved with {:?}, the synchronous operation yields {:?}", o, e.out)); } }
-                    (Polled::Pending, false) => { self.pend += 1; if keep { self.held[r.i()] = Some(op.clone()); } }
+                    (Polled::Pending, false) => { self.pend += 1; if keep { self.held[r.i()] = Some(op.clone()); }
+                        if s.last_registered == Some(false) { self.fail("oracle", vec!["C15"], &line, "returned Pending without keeping the waker of the task that polled: no later wake-up can reach that task".into()); } }
                     (Polled::Ready(o), false) => { self.fail("oracle", vec!["C14", "C05"], &line, format!("resolved with {:?} although the synchronous operation would be refused", o)); let _ = self.oracle.apply(op); }
                     (Polled::Pending, true) => { self.fail("oracle", vec!["C14"], &line, "returned Pending although the operation was possible".into()); if keep { self.held[r.i()] = Some(op.clone()); } }
                 }
@@ -128,7 +129,8 @@ impl<'a> Run<'a> {
                 let mut exp_drops = vec![];
                 match (&res, grant) {
                     (Polled::Ready(o), true) => { self.ready += 1; self.held[r.i()] = None; let e = self.oracle.apply(&op); exp_drops = e.drops; if Some(abs(&op, o)) != e.out { self.fail("oracle", vec!["C14", "C01"], &line, format!("resolved with {:?}, expected {:?}", o, e.out)); } }
-                    (Polled::Pending, false) => { self.pend += 1; }
+                    (Polled::Pending, false) => { self.pend += 1;
+                        if s.last_registered == Some(false) { self.fail("oracle", vec!["C15"], &line, "returned Pending without keeping the waker of the task that polled: no later wake-up can reach that task".into()); } }
                     (Polled::Ready(o), false) => { self.held[r.i()] = None; self.fail("oracle", vec!["C14"], &line, format!("resolved with {:?} although still impossible", o)); let _ = self.oracle.apply(&op); }
                     (Polled::Pending, true) => { self.fail("oracle", vec!["C14"], &line, "a future polled after its condition became true did not complete".into()); }
                 }
@@ -218,8 +220,10 @@ macro_rules! heap_case { ($Buf:ident, $T:ty, $c:expr, $vals:expr, $run:expr, $sr
 macro_rules! heap_case_async { ($T:ty, $c:expr, $vals:expr, $run:expr, $src:expr, $stop:expr) => {{
     use mutringbuf::iterators::async_iterators::AsyncIterator;
     let buf: ConcurrentHeapRB<$T> = ConcurrentHeapRB::<$T>::from($vals.iter().map(|v| <$T as mrb_harness::tok::Item>::make(*v)).collect::<Vec<$T>>());
-    if $c.has_w { let (p, w, c) = buf.split_mut_async(); session::<_, $T, true>(p.into_sync(), Some(w.into_sync()), c.into_sync(), $run, $src, $stop); }
-    else { let (p, c) = buf.split_async(); session::<_, $T, false>(p.into_sync(), None, c.into_sync(), $run, $src, $stop); }
+    // the consumer's `W` parameter (does it look at a worker?) is whatever the crate's split returns: if it is not the one the
+    // number of stages calls for, the histories show it (the consumer oversteps the worker / waits for a worker that is not there)
+    if $c.has_w { let (p, w, c) = buf.split_mut_async(); session::<_, $T, _>(p.into_sync(), Some(w.into_sync()), c.into_sync(), $run, $src, $stop); }
+    else { let (p, c) = buf.split_async(); session::<_, $T, _>(p.into_sync(), None, c.into_sync(), $run, $src, $stop); }
 }}; }
 macro_rules! stack_case { ($Buf:ident, $T:ty, $N:literal, $c:expr, $vals:expr, $run:expr, $src:expr, $stop:expr) => {{
     let mut buf: $Buf<$T, $N> = $Buf::<$T, $N>::from(std::array::from_fn::<$T, $N, _>(|i| <$T as mrb_harness::tok::Item>::make($vals[i])));
